@@ -18,7 +18,7 @@ CHECKS = {
 }
 
 CHECKS["C06"] = ("exploration",
-         "The built binary is run as a subprocess on generated inputs (planted mistakes in random multi-line layout, token mutations, token soups, raw bytes) x shell x destination kind and judged by a validity predicate on exit status, stderr, stdout and the destination file; the same inputs go through the library pipeline and all emitters in-process at 20x the volume to catch panics.",
+         "The built binary is run as a subprocess on generated inputs (planted mistakes in random multi-line layout, token mutations, token soups, raw bytes, brackets nested up to 64 deep, and a fixed set of 38 extreme shapes: nesting towers, 40 layers of diamond definitions, 400 alternatives, ...) x shell x destination kind and judged by a validity predicate on exit status, stderr, stdout and the destination file; the same inputs go through the library pipeline and all emitters in-process at 20x the volume to catch panics.",
          "4.C06", "generated inputs (seeded proptest choice streams: grammar-aware mutation + planted mistakes + soups + raw bytes) x validity-predicate oracle on the subprocess; in-process no-panic oracle",
          "process creation is a serial resource on this box (~90 runs/s), so the subprocess part is ~1.5k runs in quick; cyclic definitions are pre-screened out of the in-process part and covered by the subprocess part; a supervisor process turns a harness crash into a verdict by re-judging the traced inputs with the binary")
 
@@ -28,7 +28,7 @@ CHECKS["C08"] = ("exploration",
          "trusted: Appendix B (what counts as clean) and the planted-mistake constructors; cycle cases are judged through the binary only; one known finding (juxtaposed literal + definition reference inside a definition) has a dedicated witness and is avoided by construction")
 
 CHECKS["C11"] = ("exploration",
-         "Exhaustive over all 2^5 definition subsets x {X, PATH, DIRECTORY} x 9 reference positions x 4 shells x 2 statement orders: the compiled automaton, the command functions read from the emitted script, a metamorphic comparison (other shells' definitions removed) and, for bash, execution of the script all have to show the definition the rule selects; plus random grammars with several specialised names.",
+         "Exhaustive over all 2^5 definition subsets x {X, PATH, DIRECTORY} x 9 reference positions x 4 shells x 2 statement orders: the compiled automaton, the command functions read from the emitted script, a metamorphic comparison (other shells' definitions removed) and, for bash, execution of the script all have to show the definition the rule selects; plus all ordered pairs of two of the names x 2^5 x 2^5 subsets at once, plus random grammars with several specialised names.",
          "4.C11", "exhaustive enumeration of definition subsets/positions + seeded random grammars x oracle: rule-implementing reference semantics, script reader, metamorphic script equality, bash execution",
          "trusted: reference semantics (model.rs Resolver), command-function reader; fish/zsh/pwsh functions are read, not executed")
 
